@@ -154,8 +154,8 @@ Section Inv.
   Proof.
     unfold hex2. destruct (hexval decval a) as [x|] eqn:A; destruct (hexval decval b) as [y|] eqn:B.
     - apply hexval_le in A. apply hexval_le in B. assert (K : 16 * x + y <= 255) by lia. intros [= <-]. exact K.
-    - apply hexval_le in A. destruct (isspace b); intros [= <-]. lia.
-    - apply hexval_le in B. destruct (isspace a || (a =? 43)); [intros [= <-]; lia|].
+    - apply hexval_le in A. destruct (int_space isspace b); intros [= <-]. lia.
+    - apply hexval_le in B. destruct (int_space isspace a || (a =? 43)); [intros [= <-]; lia|].
       destruct (a =? MINUS); [|discriminate]. destruct (y =? 0); intros [= <-]. lia.
     - discriminate.
   Qed.
